@@ -347,3 +347,141 @@ func (kt *KeyTable) buildersOfFamily(fam string) []*Builder {
 	sort.Slice(out, func(i, j int) bool { return out[i].Name < out[j].Name })
 	return out
 }
+
+// scansFamily reports whether the term contains a prefix scan of the given key family (the
+// prefix resolved through builders and selecting helpers), whatever the sub-space builder is called.
+func (p *Prog) scansFamily(t *Term, fam string) bool {
+	hit := false
+	t.Walk(func(x *Term) bool {
+		if hit {
+			return false
+		}
+		if (x.Op == "sdk.KVStorePrefixIterator" || x.Op == "sdk.KVStoreReversePrefixIterator") && len(x.A) == 2 {
+			for _, v := range p.keyVariants(x.A[1], 0) {
+				if f, _ := p.keyFamily(v.Key); f == fam {
+					hit = true
+				}
+			}
+		}
+		return true
+	})
+	return hit
+}
+
+// keyVar is one alternative of a key computed by a selecting helper: the key term and the facts
+// (over the caller's vocabulary) under which the helper returns it.
+type keyVar struct {
+	Key    *Term
+	Guards FactSet
+}
+
+// keyVariants resolves a key term produced by a module helper that chooses between key builders
+// (by a switch / if over its arguments): one variant per return path whose facts are not refuted by
+// the actual arguments. A term whose family is already known yields itself.
+func (p *Prog) keyVariants(k *Term, depth int) []keyVar {
+	if k == nil {
+		return nil
+	}
+	k0 := stripConv(stripSpread(k))
+	if fam, _ := p.keyFamily(k0); fam != "?" {
+		return []keyVar{{Key: k, Guards: FactSet{}}}
+	}
+	// the key of the element under a scan whose prefix needs resolving
+	if strings.HasSuffix(k0.Op, "Iterator.Key") && len(k0.A) == 1 {
+		if it := k0.A[0]; (it.Op == "sdk.KVStorePrefixIterator" || it.Op == "sdk.KVStoreReversePrefixIterator") && len(it.A) == 2 {
+			var out []keyVar
+			for _, v := range p.keyVariants(it.A[1], depth+1) {
+				nk := &Term{Op: k0.Op, A: []*Term{{Op: it.Op, A: []*Term{it.A[0], v.Key}, Typ: it.Typ}}, Typ: k0.Typ}
+				out = append(out, keyVar{Key: nk, Guards: v.Guards})
+			}
+			return out
+		}
+	}
+	// a key computed by a function value that is a known literal: its result on the actual arguments
+	if k0.Op == "dyn" && len(k0.A) >= 1 && k0.A[0].Is("func") && len(k0.A[0].A) == 1 && depth <= 2 {
+		cl := p.FuncNamed(k0.A[0].A[0].At)
+		if cl == nil || cl.Body == nil || p.pathsBusy[cl] {
+			return nil
+		}
+		m := map[string]*Term{}
+		for i, a := range k0.A[1:] {
+			m[fmt.Sprintf("P%d", i)] = a
+		}
+		// captured parameters of the enclosing function keep their meaning there
+		if cl.Parent != nil {
+			for i := range cl.Parent.Params {
+				m[fmt.Sprintf("U%d", i)] = atom(fmt.Sprintf("P%d", i)).withType(cl.Parent.Params[i].Type())
+			}
+		}
+		var out []keyVar
+		for _, pa := range p.PathsOf(cl) {
+			if !pa.OK() || len(pa.Ret) != 1 {
+				return nil
+			}
+			sub := p.keyVariants(pa.Ret[0].Subst(m), depth+1)
+			if sub == nil {
+				return nil
+			}
+			for _, v := range sub {
+				gs := v.Guards.Clone()
+				for _, f := range pa.AllFacts() {
+					for _, nf := range f.SubstAll(m) {
+						if !nf.T.IsAt("#true") && !nf.T.IsAt("#false") {
+							gs.Add(nf)
+						}
+					}
+				}
+				out = append(out, keyVar{Key: v.Key, Guards: gs})
+			}
+		}
+		return out
+	}
+	g := p.FuncNamed(k0.Op)
+	if g == nil || depth > 2 || !g.isHandWritten() || g.Body == nil || len(g.Res) != 1 || !isByteSlice(g.Res[0].Type()) || p.pathsBusy[g] {
+		return nil
+	}
+	if _, isBuilder := p.keys().Builders[g.Name]; isBuilder {
+		return nil
+	}
+	m := argMap(g, k0)
+	var out []keyVar
+	for _, pa := range p.PathsOf(g) {
+		if !pa.OK() || len(pa.Ret) != 1 {
+			return nil
+		}
+		guards := FactSet{}
+		refuted := false
+		for _, f := range pa.AllFacts() {
+			for _, nf := range f.SubstAll(m) {
+				if nf.T.IsAt("#true") || nf.T.IsAt("#false") {
+					if nf.T.IsAt("#true") == nf.Neg {
+						refuted = true
+					}
+					continue
+				}
+				switch decideFact(nf, FactSet{}) {
+				case 0:
+					refuted = true
+				case 1:
+				default:
+					guards.Add(nf)
+				}
+			}
+		}
+		if refuted {
+			continue
+		}
+		sub := p.keyVariants(pa.Ret[0].Subst(m), depth+1)
+		if sub == nil {
+			return nil
+		}
+		for _, v := range sub {
+			gs := guards.Clone()
+			for _, f := range v.Guards {
+				gs.Add(f)
+			}
+			out = append(out, keyVar{Key: v.Key, Guards: gs})
+		}
+	}
+	return out
+}
